@@ -60,6 +60,8 @@ K_TSORT = 'TemporalDataset.sort_by,ties'
 K_BIN_LIST = 'bin_time,list-typed-time-descriptor'
 K_ODD_SINGLE = 'odd_even_split,single-value'
 K_SUBT_EMPTY = 'subset_time,no-time-point-in-range'
+# labels whose defect has been repaired in /repo (aed6debb, 95e01e94, 1694cd79): histories continue through such steps
+REPAIRED = {K_TAO_SINGLE, K_TSORT, K_BIN_LIST}
 
 
 # =====================================================================================================
@@ -465,8 +467,10 @@ def _tag(op, cur):
         t = _tag1(op, v)
         if t is None:
             return None
-        if t != 'ok':
-            worst = t
+        if t in REPAIRED:
+            t = 'ok'          # defect repaired in /repo (fix: commit): an ordinary step again
+        if t != 'ok' and worst == 'ok':
+            worst = t         # the operation is applied to the datasets in order: the first label is the one that can fire
     return worst
 
 
